@@ -26,16 +26,24 @@ def farr(ctx, rows):
     """float-like array from nested lists of numbers / proxies"""
     if ctx.mode == "sym":
         from symx.npf import sarr
-        return sarr(rows)
-    return np.array(rows, dtype=float)
+        return _auto(ctx, sarr(rows))
+    return _auto(ctx, np.array(rows, dtype=float))
+
+
+def _auto(ctx, arr):
+    """frame mode (C18): every array a harness hands to the code under test is put under the frame condition"""
+    if getattr(ctx, "frame", False) and isinstance(arr, np.ndarray) and arr.ndim:
+        ctx._nprot = getattr(ctx, "_nprot", 0) + 1
+        ctx.protect(f"arg#{ctx._nprot}{list(arr.shape)}", arr)
+    return arr
 
 
 def iarr(ctx, vals):
     a = np.array(vals, dtype=int)
     if ctx.mode == "sym":
         from symx.npf import carr
-        return carr(a)
-    return a
+        return _auto(ctx, carr(a))
+    return _auto(ctx, a)
 
 
 def make_cell(ctx, d, kind):
@@ -115,3 +123,38 @@ def norm2(v):
     for x in v:
         t = t + x * x
     return t
+
+
+def cauchy_schwarz(ctx, a, b, tag):
+    """(a.b)^2 <= |a|^2 |b|^2 for two real vectors of terms, *decided* rather than assumed:
+    (i) Lagrange's identity |a|^2|b|^2 - (a.b)^2 = sum_{k<l} (a_k b_l - a_l b_k)^2 is discharged as a polynomial identity
+        (normal form, every minor d_kl a defined symbol that is expanded for the comparison);
+    (ii) with the identity as a premise the inequality is a linear consequence of d_kl^2 >= 0.
+    Returns the inequality as a fact (assumed on the path only after both steps were discharged), or None."""
+    dot = sum(x * y for x, y in zip(a, b))
+    na = sum(x * x for x in a)
+    nb = sum(y * y for y in b)
+    if ctx.mode != "sym":
+        ctx.oblige(f"{tag}: (a.b)^2 <= |a|^2|b|^2", O.le(dot * dot, na * nb, 1e-9))
+        return None
+    ds = []
+    n = len(a)
+    for k in range(n):
+        for l in range(k + 1, n):
+            ds.append(ctx.define(f"{tag}.d{k}_{l}", a[k] * b[l] - a[l] * b[k]))
+    sos = sum(d * d for d in ds)
+    lhs = na * nb - dot * dot
+    ident = O.eq(lhs, sos, expand=True)
+    ctx.oblige(f"{tag}: Lagrange identity |a|^2|b|^2 - (a.b)^2 = sum of squared 2x2 minors", ident)
+    if not (ident is True or getattr(ident, "structural", False)):
+        return None
+    fact = O.eq(lhs, sos)
+    if isinstance(fact, bool):
+        return None
+    ctx.assume(fact)
+    goal = O.le(dot * dot, na * nb)
+    ctx.oblige(f"{tag}: (a.b)^2 <= |a|^2|b|^2", goal, using=[fact])
+    if not isinstance(goal, bool):
+        ctx.assume(goal)
+    ctx.lemma("Cauchy-Schwarz decided through Lagrange's identity (sum of squared minors), not assumed")
+    return goal
